@@ -169,8 +169,9 @@ def _escape_vc(ctx, L):
                    f"({sorted(k.__name__ for k in classes)}) is caught at the loops' call sites ({loops()})")
 
 
-def _trace_vc(ctx, L):
-    """a frame that ends in an exception has left no trace in the location table (so the intact copy that follows is not taken for a duplicate)"""
+def _trace_vc(ctx, L, own_table_only=False):
+    """a frame that ends in an exception has left no trace in the location table (so the intact copy that follows is not taken for a duplicate);
+    own_table_only: only the obligation that a frame carrying the station's own address as source enters nothing into the location table (C08)"""
     h = Harness(8 * 24 + 128 + 64, geom="free", greedy="free", area_size="free", ego="sym")
     I = h.I
     h.add_entry("e1")
@@ -235,6 +236,18 @@ def _trace_vc(ctx, L):
                     pass
             outs.append((sorted(repr(a) for a in R.location_table.loc_t) != before, bool(got), bool(ll.sent)))
         return any(any(o) for o in outs), f"frame {f.hex()} carrying the station's own address as source: location table changed={any(o[0] for o in outs)}, delivered={any(o[1] for o in outs)}, sent={any(o[2] for o in outs)}"
+    if own_table_only:
+        ctx.witness(f"L{L}-reach-table-update", I, any_touch, vars={"frame": pkt})
+        ctx.witness(f"L{L}-reach-own-address-frame", I, z3.And(own, pkt.bs[5] == 0x60), vars={"frame": pkt})
+
+        def replay_tbl(vals):
+            bad, msg = replay_own(vals)
+            return bad and "location table changed=True" in msg, msg
+        ctx.prove(f"L{L}-own-address-is-never-entered", I, z3.And(own, any_touch), vars=vars_, replay=replay_tbl,
+                  desc="whatever the header type (beacon, SHB, TSB, GBC, GAC, GUC, LS request, LS reply), a frame whose source GN address is the station's own "
+                       "reaches no location-table update: duplicate address detection runs before the table is touched")
+        ctx.bound(f"{L}-octet frames through Router.gn_data_indicate, all octets symbolic (every header type and sub-type; shorter headers carry the rest as payload)")
+        return
     ctx.prove(f"L{L}-own-frames-are-ignored-without-trace", I, z3.And(own, z3.Or(any_touch, h.any_indication(), h.any_send())), vars=vars_, replay=replay_own,
               desc="a frame whose source GN address is the station's own updates no location-table entry, is not delivered and triggers no transmission")
     by_class = {}
@@ -306,11 +319,11 @@ for _L in TRUNC_LENGTHS:
     _mk_trunc(_L)
 
 
-TRACE_LENGTHS = (56, 58, 62, 68)
+TRACE_LENGTHS = (40, 48, 56, 58, 60, 62, 68)
 
 
 def _mk_trace(L):
-    @vc("C04", f"R3-no-trace-L{L:03d}", tiers=("quick", "thorough") if L in (58, 68) else ("thorough",))
+    @vc("C04", f"R3-no-trace-L{L:03d}", tiers=("quick", "thorough") if L in (48, 58, 68) else ("thorough",))
     def f(ctx):
         _trace_vc(ctx, L)
     return f
